@@ -35,6 +35,7 @@ type stubClient struct {
 	cfgReqs int
 	onPub   func(p *protocol.PublishDiagnosticsParams) // called before the publication is recorded (may block)
 	cond    *sync.Cond
+	quiet   bool // publications are dropped without touching shared state (no lock: nothing that orders goroutines)
 }
 
 func newStubClient() *stubClient {
@@ -49,6 +50,9 @@ func (c *stubClient) WorkDoneProgressCreate(context.Context, *protocol.WorkDoneP
 }
 func (c *stubClient) LogMessage(context.Context, *protocol.LogMessageParams) error { return nil }
 func (c *stubClient) PublishDiagnostics(_ context.Context, p *protocol.PublishDiagnosticsParams) error {
+	if c.quiet {
+		return nil
+	}
 	if c.onPub != nil {
 		c.onPub(p)
 	}
